@@ -718,7 +718,7 @@ def eval_call_contract(exe, name, con, node, args, st):
         res = None
     else:
         raise FrontEndError('contract call returning %r' % rt)
-    extra = {'result': view(exe, st, res, rt)}
+    extra = {'result': view(exe, st, res, rt)} if not isinstance(rt, TVoid) else {}
     env_post = Env(exe, defs, {'cur': st, 'old': pre}, resolver_for(st), extra=extra)
     for cname, src in _items(con.get('ensures', {})):
         t = _b(src(env_post) if callable(src) else env_post.eval(src))
